@@ -44,6 +44,35 @@ class Site:
         return out, npos
 
 
+def _forwarding(prog, blk):
+    """A nested function or lambda that only forwards to a package function - `def block(b): return kern(b, cellsize)`,
+    `lambda b: kern(b, w=w)` - is the `functools.partial` it spells: its own parameters lead the call in order, everything
+    else is bound by the closure.  Returns the equivalent Partial (extra positionals bound by the target's parameter names)
+    or blk itself."""
+    if not isinstance(blk, Func) or (blk.parent is None and not blk.is_lambda) or blk.vararg or blk.kwarg:
+        return blk
+    body = blk.body
+    stmts = [s_ for s_ in body if not (isinstance(s_, ast.Expr) and isinstance(s_.value, ast.Constant))]
+    if len(stmts) != 1 or not isinstance(stmts[0], ast.Return) or not isinstance(stmts[0].value, ast.Call):
+        return blk
+    c = stmts[0].value
+    g = prog.resolve_callable(blk, blk.module, c.func)
+    if not isinstance(g, Func) or g is blk or any(isinstance(a, ast.Starred) for a in c.args) or any(k.arg is None for k in c.keywords):
+        return blk
+    k = len(blk.params)
+    if len(c.args) < k or [norm(a) for a in c.args[:k]] != blk.params or g.vararg:
+        return blk
+    own = set(blk.params)
+    rest = c.args[k:]
+    if any(isinstance(x, ast.Name) and x.id in own for a in list(rest) + [kw_.value for kw_ in c.keywords] for x in ast.walk(a)):
+        return blk
+    if k + len(rest) > len(g.params):
+        return blk
+    kws = {g.params[k + i]: a for i, a in enumerate(rest)}
+    kws.update({kw_.arg: kw_.value for kw_ in c.keywords})
+    return Partial(g, [], kws, c)
+
+
 def sites_in(prog, f):
     out = []
     for n in f.own_nodes():
@@ -54,12 +83,12 @@ def sites_in(prog, f):
         if isinstance(t, Ext) and t.dotted.startswith('dask.array'):
             if not n.args:
                 continue
-            blk = prog.resolve_callable(f, f.module, n.args[0])
+            blk = _forwarding(prog, prog.resolve_callable(f, f.module, n.args[0]))
             arrays = list(n.args[1:])
         else:
             if not n.args:
                 continue
-            blk = prog.resolve_callable(f, f.module, n.args[0])
+            blk = _forwarding(prog, prog.resolve_callable(f, f.module, n.args[0]))
             arrays = [n.func.value] + list(n.args[1:])
         out.append(Site(n.func.attr, n, f, blk, arrays, _keywords(f, n)))
     return out
@@ -396,3 +425,40 @@ def eval_in_scope(prog, f, exprs, rename=None, pair=False):
             return [it.as_scalar(x) for x in v.items]
         out.append(it.as_scalar(v))
     return out
+
+
+def check_declared_type(rep, rule, site, entry):
+    """The `meta=` / `dtype=` a map_blocks / map_overlap site declares for its lazy result must not be taken from the INPUT
+    array (`x._meta`, `x.dtype`, `meta_from_array(x)`) when the block function returns an array of a fixed dtype of its own:
+    the lazy result would then advertise the input's dtype (an integer raster, say) while its blocks are float - `isnull`,
+    `count`, `fillna`, `astype` decisions made on the declared dtype go wrong.  Returns the number of obligations added."""
+    kern = site.kernel()
+    n = 0
+    arr_names = {x.id for a in site.arrays for x in ast.walk(a) if isinstance(x, ast.Name)}
+    for kw_ in ('meta', 'dtype'):
+        v = site.kwargs.get(kw_)
+        if v is None:
+            continue
+        from_input = [x for x in ast.walk(v) if isinstance(x, ast.Attribute) and x.attr in ('_meta', 'dtype') and
+                      any(isinstance(y, ast.Name) and y.id in arr_names for y in ast.walk(x.value))]
+        from_input += [x for x in ast.walk(v) if isinstance(x, ast.Call) and norm(x.func).split('.')[-1] == 'meta_from_array' and
+                       any(isinstance(y, ast.Name) and y.id in arr_names for a_ in x.args for y in ast.walk(a_))]
+        if not from_input:
+            continue
+        fixed = None
+        if kern is not None:
+            # the array the block function returns: allocated with an explicit dtype of its own?
+            rets = [r.value for r in kern.own_nodes() if isinstance(r, ast.Return) and isinstance(r.value, ast.Name)]
+            for r in rets:
+                for val in kern.local_assigns().get(r.id, []):
+                    if isinstance(val, ast.Call):
+                        dt = next((k.value for k in val.keywords if k.arg == 'dtype'), None)
+                        if dt is not None and not any(isinstance(y, ast.Attribute) and y.attr == 'dtype' for y in ast.walk(dt)):
+                            fixed = norm(dt)
+        n += 1
+        rep.add(rule, site.scope, entry, '%s=%s' % (kw_, norm(v)[:60]), site.call.lineno, False if fixed else None,
+                'the declared type of the lazy result is taken from the input array, but the block function %s returns %s whatever the '
+                'input is: an integer raster gives a result that claims to be integer and holds floats' % (
+                    kern.qualname if kern is not None else '?', fixed or 'an array whose dtype is not decided here'))
+    return n
+
